@@ -14,11 +14,6 @@ import Nstd.Args.LemmasWait
 -/
 namespace Nstd.Args.Wait
 
-theorem ex_some {α : Type} (o : Option α) (h : o.isSome = true) : ∃ x, o = some x := by
-  cases o with
-  | none => simp at h
-  | some x => exact ⟨x, rfl⟩
-
 /-- pid-reuse safety: no `waitpid`/`kill` issued by `join`, `kill`, `wait` ever hits a child other than the one the
     caller created (or a pid that is not a child at all), although the kernel may hand a reaped pid out again -/
 theorem waitpid_only_hits_the_own_child (s : St) (h : Reach s) : s.mismatch = false :=
